@@ -1081,3 +1081,6 @@ benign(
 )
 benign("B14i-stage-index-counts-from-one", ["C14"], (OPS, "    for i, stage in enumerate(stages):\n        last_stage = i == len(stages) - 1\n", "    num_stages = len(stages)\n    for i, stage in enumerate(stages, start=1):\n        last_stage = i == num_stages\n"))
 mutant("M14v-stage-index-from-one-test-from-zero", ["C14"], "RECHUNK-PLAN-1", (OPS, "    for i, stage in enumerate(stages):\n", "    for i, stage in enumerate(stages, start=1):\n"))
+_RETARGET = "                    op = d[\"primitive_op\"]\n                    op.target_array = target\n                    op.fusable_with_successors = False\n"
+mutant("M11r-retarget-on-a-copy-never-stored", ["C11", "C02"], "STORE-NOFUSE-1", (OPS, "from dataclasses import dataclass\n", "from dataclasses import dataclass, replace\n"), (OPS, _RETARGET, "                    op = replace(d[\"primitive_op\"], target_array=target, fusable_with_successors=False)\n"))
+mutant("M11s-retarget-copy-without-mark", ["C11", "C02"], "STORE-NOFUSE-1", (OPS, "from dataclasses import dataclass\n", "from dataclasses import dataclass, replace\n"), (OPS, _RETARGET, "                    op = replace(d[\"primitive_op\"], target_array=target)\n                    d[\"primitive_op\"] = op\n"))
